@@ -23,6 +23,7 @@ registry! {
     "BENCH" => bench,
     "C03" => c03,
     "C04" => c04,
+    "C05" => c05,
     "C06" => c06,
     "C21" => c21,
     "C07" => c07,
